@@ -3,7 +3,7 @@ EXTENDS I_FlowExcl
 A(v4, v6) == [v4 |-> v4, v6 |-> v6]
 MCAddrSets == { A({}, {}), A({"a"}, {"x"}), A({"b"}, {"x"}), A({"a", "b"}, {}) }
 MCAddrSetsQuick == { A({}, {}), A({"a"}, {"x"}), A({"a", "b"}, {}) }
-MCAddrSetsBig == { A({}, {}), A({"a"}, {"x"}), A({"b"}, {"x"}), A({"a", "b"}, {}), A({"b"}, {"y"}), A({}, {"x", "y"}) }
+MCAddrSetsBig == { A({}, {}), A({"a"}, {"x"}), A({"b"}, {"x"}), A({"a", "b"}, {}), A({"b"}, {"y"}) }
 F(d, bw, pr, mc) == [dscp |-> d, ibw |-> bw, ebw |-> 0, ipr |-> pr, epr |-> 0, imc |-> 0, emc |-> mc]
 \* none, bandwidth only (no hooks needed), DSCP, ingress packet rate, egress max connections
 MCFeats == { NoFeat, F(0, 1000, 0, 0), F(1, 0, 0, 0), F(0, 0, 50, 0), F(0, 1000, 0, 7) }
